@@ -204,4 +204,5 @@ def check_same_values(W, name, vals, expected: Lab, hyp=None):
 
 
 def check_raises(W, name, out, exc_type):
-    W.prove(f"{name}.raises_{exc_type.__name__}", out.kind == "raise" and isinstance(out.exc, exc_type), detail=repr(out))
+    nm = exc_type.__name__ if isinstance(exc_type, type) else "_or_".join(t.__name__ for t in exc_type)
+    W.prove(f"{name}.raises_{nm}", out.kind == "raise" and isinstance(out.exc, exc_type), detail=repr(out))
